@@ -228,6 +228,93 @@ Example ex_restart_after_failed_step :
   option_map s_app (g_state (img_of (run f1_cfg rs_history))) = Some 4.
 Proof. vm_compute. repeat split. Qed.
 
+(* (4'') FULL.  PROCESS DEATHS inside a production step.  "Permanently unable to produce blocks" must also not be the
+   result of the node's process dying in the middle of a step (kill, power loss, a failed write) and being started again:
+   histories here are ANY lists of boots, steps, [ICrash a k] (the process dies after k atomic datastore writes of the
+   boot or step [a], ANY k), shutdowns — only hand-made damage of cache files is excluded ([untampered]; C04 is about
+   what every such image looks like, the three theorems below are C01's reading: valid chain, never wedged).
+   (a) Whenever a process runs — after ANY history, crashes anywhere — the committed chain is valid (1) and a
+       well-formed pair of responses commits the next block in that very step (2). *)
+Theorem C01_running_after_crashes_full : forall (c : cfg) (h : list item),
+  wf_cfg c -> forall v, vol_of (run c h) = Some v ->
+  ChainValid c (run c h) /\
+  forall sq e, wf_resp c (run c h) sq e = true ->
+    a_out (step c (img_of (run c h)) v sq e) = OCommitted (g_height (img_of (run c h)) + 1).
+Proof. exact running_after_crashes. Qed.
+Print Assumptions C01_running_after_crashes_full.
+
+(* (b) After every such history a start-up with a working execution layer succeeds, height, state and blocks agree,
+       and a well-formed pair of responses commits the next block in the first step. *)
+Theorem C01_restart_after_crashes_full : forall (c : cfg) (h : list item) (r0 : root),
+  wf_cfg c -> untampered h = true ->
+  let st' := fst (exec_item c (run c h) (IRun (ABoot (Some r0)))) in
+  exists v, vol_of st' = Some v /\ ChainValid c st' /\
+    forall sq e, wf_resp c st' sq e = true ->
+      a_out (step c (img_of st') v sq e) = OCommitted (g_height (img_of st') + 1).
+Proof. exact restart_all. Qed.
+Print Assumptions C01_restart_after_crashes_full.
+
+(* (c) The one window in which the start-up has something to REPAIR: a commit is two writes, the state and then the
+       store height (block/manager.go publishBlockInternal: updateState, store.SetHeight).  After any history, while a
+       process runs, a well-formed pair of responses commits H+1 with the writes pre ++ [state; height]; if the process
+       dies after the state write and before the height write (k = |pre| + 1) the disk holds the state of H+1 under the
+       store height H.  The next start-up — whatever InitChain would answer — succeeds and performs exactly ONE write:
+       it raises the store height to H+1 (NewManager: store.SetHeight(s.LastBlockHeight), unconditionally); then
+       height, state and blocks agree and a well-formed pair of responses commits H+2 in the very next step.
+       ([ex_torn_commit]: WITHOUT that write the next step finds the committed block H+1 as "pending block", executes
+       it again and fails validation, for ever.) *)
+Theorem C01_torn_commit_restart_full : forall (c : cfg) (h : list item) (v : vol) (sq : seqresp) (e : execresp) (ic : option root),
+  wf_cfg c -> untampered h = true -> vol_of (run c h) = Some v -> wf_resp c (run c h) sq e = true ->
+  let st := run c h in let H := g_height (img_of st) in
+  let r := step c (img_of st) v sq e in
+  let st1 := run c (h ++ [ICrash (AStep sq e) (S (length (a_pre r)))]) in
+  let r2 := exec_item c st1 (IRun (ABoot ic)) in
+  a_out r = OCommitted (H + 1) /\
+  g_height (img_of st1) = H /\ option_map s_height (g_state (img_of st1)) = Some (H + 1) /\ vol_of st1 = None /\
+  o_res (snd r2) = OBootOk /\ o_ws (snd r2) = [w_height (H + 1)] /\ g_height (img_of (fst r2)) = H + 1 /\
+  exists v', vol_of (fst r2) = Some v' /\ ChainValid c (fst r2) /\
+    forall sq' e', wf_resp c (fst r2) sq' e' = true ->
+      a_out (step c (img_of (fst r2)) v' sq' e') = OCommitted (H + 2).
+Proof. exact torn_commit_restart. Qed.
+Print Assumptions C01_torn_commit_restart_full.
+
+(* non-vacuity of (4''): the genesis block, block 2, then the process dies while committing block 3 after 4 of the 5
+   writes of the step (cursor, early block, final block, state | height): the disk holds the state of height 3 under the
+   store height 2.  The restart writes exactly the store height 3 and the chain goes on with block 4.  A process that
+   ran on that image WITHOUT the raised height (the recorded state, store height 2) would take the committed block 3
+   for the pending block, hand it to the execution layer again on the root AFTER block 3 and fail validation, with
+   nothing written: the same in every later step. *)
+Definition tc_history : list item :=
+  [ IRun (ABoot (Some 1)); IRun (AStep SNil (EOk 2)); IRun (AStep (SBatch [5; 6] 1000%Z 1) (EOk 3));
+    ICrash (AStep (SBatch [7] 2000%Z 2) (EOk 4)) 4;
+    IRun (ABoot None);
+    IRun (AStep (SBatch [8] 3000%Z 3) (EOk 5)) ].
+Example ex_torn_commit :
+  let before := run f1_cfg (firstn 3 tc_history) in
+  let dead := run f1_cfg (firstn 4 tc_history) in
+  wf_cfg f1_cfg /\ untampered tc_history = true /\ crash_free tc_history = false /\
+  (exists v, vol_of before = Some v /\
+     S (length (a_pre (step f1_cfg (img_of before) v (SBatch [7] 2000%Z 2) (EOk 4)))) = 4%nat) /\
+  wf_resp f1_cfg before (SBatch [7] 2000%Z 2) (EOk 4) = true /\
+  map o_res (outputs f1_cfg tc_history) = [OBootOk; OCommitted 1; OCommitted 2; OCrashed; OBootOk; OCommitted 4] /\
+  map (fun o => List.length (o_ws o)) (outputs f1_cfg tc_history) = [1; 3; 5; 4; 1; 5]%nat /\
+  g_height (img_of dead) = 2 /\ option_map s_height (g_state (img_of dead)) = Some 3 /\
+  o_ws (nth 4 (outputs f1_cfg tc_history) (Build_iout OSkipped None None [] [])) = [w_height 3] /\
+  g_height (img_of (run f1_cfg tc_history)) = 4 /\
+  (forall s, g_state (img_of dead) = Some s ->
+     let r := step f1_cfg (img_of dead) {| v_state := s; v_cursor := g_cursor (img_of dead) |} (SBatch [8] 3000%Z 3) (EOk 5) in
+     a_out r = OErrValidate /\ a_ws r = [] /\ option_map (fun x => fst (fst (fst x))) (a_call r) = Some 3).
+Proof.
+  cbv zeta. split; [split; [vm_compute; discriminate|reflexivity]|].
+  split; [reflexivity|]. split; [reflexivity|].
+  split; [eexists; split; vm_compute; reflexivity|].
+  split; [vm_compute; reflexivity|].
+  split; [vm_compute; reflexivity|]. split; [vm_compute; reflexivity|].
+  split; [vm_compute; reflexivity|]. split; [vm_compute; reflexivity|].
+  split; [vm_compute; reflexivity|]. split; [vm_compute; reflexivity|].
+  intros s Hs. vm_compute in Hs. inversion Hs; subst s. vm_compute. repeat split.
+Qed.
+
 (* FROM TRANSLATED CODE.  The step and the start-up the histories above are made of are what the Go functions
    themselves do: Manager.publishBlockInternal refines [step] (Props/C04.v, C04_translated_publish_refines_step_full)
    and getInitialState refines [boot] — translated from /repo's source on every run and evaluated by Model/GoLite.v
